@@ -142,3 +142,77 @@ func VerifH_C05_mixed_comparison() {
 		}
 	}
 }
+
+func refToBooleanPrim(p verifPrim) bool {
+	switch p.kind {
+	case 2:
+		return p.b
+	case 3:
+		return !(p.f == 0 || p.f != p.f)
+	case 4:
+		return len(p.s) != 0
+	}
+	return false
+}
+
+func verifSamePrim(v Value, p verifPrim) bool {
+	switch p.kind {
+	case 0:
+		return v.IsUndefined()
+	case 1:
+		return v.IsNull()
+	case 2:
+		b, _ := v.ToBoolean()
+		return v.IsBoolean() && b == p.b
+	case 3:
+		f, _ := v.ToFloat()
+		return v.IsNumber() && sameF64(f, p.f)
+	}
+	return v.IsString() && v.String() == p.s
+}
+
+// C05: &&, ||, ?:, ! and typeof on primitives of every kind (11.4.3, 11.4.9, 11.11, 11.12).
+func VerifH_C05_logical_typeof() {
+	vm := New()
+	x := verifPrimOperand(vm, "x")
+	y := verifPrimOperand(vm, "y")
+	tx := refToBooleanPrim(x)
+	verifCover("reached")
+	switch verifChoose(5) {
+	case 0:
+		v, ok := verifRun(vm, "x && y")
+		if ok {
+			if tx {
+				verifAssert(verifSamePrim(v, y), "11.11: x && y is y when ToBoolean(x)")
+			} else {
+				verifAssert(verifSamePrim(v, x), "11.11: x && y is x otherwise (the operand itself, not a boolean)")
+			}
+		}
+	case 1:
+		v, ok := verifRun(vm, "x || y")
+		if ok {
+			if tx {
+				verifAssert(verifSamePrim(v, x), "11.11: x || y is x when ToBoolean(x)")
+			} else {
+				verifAssert(verifSamePrim(v, y), "11.11: x || y is y otherwise")
+			}
+		}
+	case 2:
+		v, ok := verifRun(vm, "x ? 'yes' : 'no'")
+		if ok {
+			verifAssert((v.String() == "yes") == tx, "11.12: the condition is ToBoolean(x)")
+		}
+	case 3:
+		v, ok := verifRun(vm, "!x")
+		if ok {
+			b, _ := v.ToBoolean()
+			verifAssert(v.IsBoolean() && b == !tx, "11.4.9: !x")
+		}
+	default:
+		v, ok := verifRun(vm, "typeof x")
+		if ok {
+			want := []string{"undefined", "object", "boolean", "number", "string"}[x.kind]
+			verifAssert(v.String() == want, "11.4.3 typeof table")
+		}
+	}
+}
